@@ -538,6 +538,60 @@ def confirm(ctx: Ctx, label: str, sim, req, ident, opts, bad: Optional[dict], wh
                           f"[{label}] {state}: refused request {req} ({out}) changed the deep state: {changed[:4]}", replay)
 
 
+# ------------------------------------------------------------------------------------------ raw routes with the real handlers
+def raw_live(ctx: Ctx, label: str, sim, replay_base: dict, cap: int = 600) -> None:
+    """"Every path in the live request tree" with the REAL handlers and nothing after the handler's key: one request per route
+    SHAPE (node class, keys with run-time names replaced by the class of the component they name). A handler that needs
+    options must answer `failure` — an exception out of `apply_request` is a violation."""
+    roots = Roots(sim)
+    RM = rreq_RM()
+    seen = set()
+    todo: List[Tuple[tuple, List[Any]]] = []
+    for node in sim.network.nodes.values():
+        host = node.config.hostname
+        for r in node._request_manager.get_request_types_recursively():
+            if r[-1] in ("shutdown", "reset", "startup"):
+                continue
+            full = ["network", "node", host] + r
+            cur, shape = sim._request_manager, []
+            for k in full:          # name the shape: a key below a dynamic manager is replaced by the class it leads to
+                rt = cur.request_types[k]
+                owner = roots.by_rm.get(id(rt.func)) if isinstance(rt.func, RM) else None
+                shape.append(type(owner[1]).__name__ if owner is not None and owner[0] in ("node", "nic", "service", "application", "folder")
+                             else k)
+                if isinstance(rt.func, RM):
+                    cur = rt.func
+            sh = tuple(shape)
+            if sh not in seen:
+                seen.add(sh)
+                todo.append((sh, full))
+    import traceback
+    for sh, req in todo[:cap]:
+        where = msg = ""
+        try:
+            resp = sim.apply_request(list(req))
+            out = "answered"
+        except Exception as e:
+            resp = e
+            out = "raised " + type(e).__name__
+            tb = traceback.extract_tb(e.__traceback__)
+            where = " <- ".join(f"{t.filename.split('primaite/')[-1]}:{t.name}:{t.lineno}" for t in tb[-2:][::-1])
+            msg = str(e)[:120]
+        ctx.cov["evaluations"] += 1
+        status = getattr(resp, "status", None) if not isinstance(resp, Exception) else "raised"
+        ctx.count(f"raw-live:{status}")
+        if status == "raised":
+            ctx.violation({"kind": "request-raises", "phase": "handler", "family": "raw-route-without-options", "exc": out.split()[1],
+                           "handler": "/".join(str(x) for x in sh[-2:])},
+                          f"[{label}] route {req} of the live tree, sent with the real handlers and no options, raised {out.split()[1]} "
+                          f"({msg}) at {where} instead of answering",
+                          dict(replay_base, ops=[], req=req, state="initial", raw_live=True, observed=out))
+        elif status not in ("success", "failure", "unreachable", "pending"):
+            ctx.violation({"kind": "undocumented-status", "family": "raw-route-without-options", "status": str(status)},
+                          f"[{label}] route {req} answered {type(resp).__name__} / status {status!r}", dict(replay_base, ops=[], req=req, state="initial"))
+    ctx.case({"raw-live": label, "shapes": len(todo)}, True)
+
+
 # ------------------------------------------------------------------------------------------ entry points used by props/c05.py
 def search(ctx: Ctx, registry, scenario_paths: Dict[str, Any], zoo_seeds: List[int], gen_families: List[Tuple[str, int]]) -> Optional[Contract]:
     """The contract search over: zoo games (every route-owning class), shipped scenarios, generated scenario families."""
@@ -554,6 +608,7 @@ def search(ctx: Ctx, registry, scenario_paths: Dict[str, Any], zoo_seeds: List[i
         for n in notes:
             ctx.notes.append(n)
         sweep(ctx, f"zoo#{seed}", game.simulation, registry, contract, {"zoo_seed": seed}, rng.fork(f"zoo{seed}"))
+        raw_live(ctx, f"zoo#{seed}", zoo_game(seed)[0].simulation, {"zoo_seed": seed})
     for name, path in scenario_paths.items():
         try:
             game = scen.make_game(scen.load_cfg(path))
@@ -592,6 +647,8 @@ def replay(rp: dict, registry) -> bool:
     after = rstate.fingerprint(sim)
     if out.startswith("raised"):
         return False
+    if rp.get("raw_live"):
+        return getattr(resp, "status", None) in ("success", "failure", "unreachable", "pending")
     bad = judge_request(rules, exists, out, contract.guards.get(rp.get("action")) if rp.get("action") else None)
     if bad:
         return False
